@@ -34,7 +34,7 @@ pub fn run_plan<T: HCfg>(plan: &Value, detail: u8, emit: &mut dyn FnMut(&Value))
     let mut w = World::<T>::new(cfg, detail)?;
     let mut head = serde_json::Map::new();
     head.insert("a".into(), json!("cfg"));
-    head.insert("cfg".into(), cfg.clone());
+    head.insert("cfg".into(), w.cfg.clone());
     head.insert("plan".into(), plan.clone());
     emit(&Value::Object(head));
 
@@ -293,7 +293,7 @@ pub fn run_schedule<T: HCfg>(
     emit: &mut dyn FnMut(&Value),
 ) -> Result<(), String> {
     let mut w = World::<T>::new(cfg, detail)?;
-    emit(&json!({"a":"cfg","cfg":cfg}));
+    emit(&json!({"a":"cfg","cfg":w.cfg.clone()}));
     for s in steps {
         let a = s["a"].as_str().unwrap_or("");
         if a == "end" || a == "cfg" {
